@@ -102,6 +102,55 @@ CONTENTS = {
 }
 UNPARSEABLE = {"bad_bracket", "bad_tab", "bad_char"}
 
+# ---------------------------------------------------------------------------------------------
+# project overlays: schema files a project keeps on its own search path (<cwd>/specs/schemas) under a FILE NAME that the package
+# provides as well — the name of a builtin dict schema (META) or of a packaged schema of the last search directory (SKILL).  The
+# loader finds the project file first; it has real FIELDS, so "the named schema" of a call is the builtin dict rules AND that file.
+# A case names its overlay with "project": <key>; the files exist only while that case runs (run_case installs / removes them).
+# ---------------------------------------------------------------------------------------------
+
+_OV_FIELDS = ['STAGE::["beta"∧REQ∧ENUM[alpha,beta,stable]]', 'OWNER::["me"∧REQ]', 'BUILD::[7∧OPT∧TYPE[NUMBER]]']
+_OV_SECTIONS = ["RELEASE", "PROJECT_META", "PROJECT_SKILL"]
+PROJECT_OVERLAYS = {
+    # file name = lower-cased builtin dict name (first filename pattern); the envelope name differs from the file name
+    "shadow_meta": {"schema": "META", "files": {"meta.oct.md": SB._schema("RELEASE", "2.0", "REJECT", _OV_FIELDS)}},
+    # exact upper-case file name only (second filename pattern)
+    "shadow_meta_upper": {"schema": "META", "files": {"META.oct.md": SB._schema("PROJECT_META", "3.1", "REJECT", _OV_FIELDS)}},
+    # unknown fields only warned about: a document with an extra field has no blocking error
+    "shadow_meta_warn": {"schema": "META", "files": {"meta.oct.md": SB._schema("RELEASE", None, "WARN", _OV_FIELDS)}},
+    # a packaged (non-dict) name shadowed the same way
+    "shadow_skill": {"schema": "SKILL", "files": {"skill.oct.md": SB._schema("PROJECT_SKILL", "0.9", "REJECT", _OV_FIELDS)}},
+}
+
+
+def _ov_doc(fields, meta=("TYPE::T", 'VERSION::"1"')):
+    return _doc("D", list(meta), [(k, fields) for k in _OV_SECTIONS])
+
+
+# every document passes / fails the overlay schemas in one designed way; all but ov_builtin_bad satisfy the builtin META dict rules
+OVERLAY_CONTENTS = {
+    "ov_ok": _ov_doc(["STAGE::beta", "OWNER::x", "BUILD::3"]),
+    "ov_bad_enum": _ov_doc(["STAGE::gamma", "OWNER::x"]),
+    "ov_missing_req": _ov_doc(["STAGE::beta"]),
+    "ov_unknown": _ov_doc(["STAGE::beta", "OWNER::x", "ZZZ::1"]),            # blocking under REJECT, a warning under WARN
+    "ov_enum_case": _ov_doc(["STAGE::BETA", "OWNER::x"]),                    # lenient write repairs it
+    "ov_bad_type": _ov_doc(["STAGE::beta", "OWNER::x", "BUILD::many"]),
+    "ov_no_section": _doc("D", ["TYPE::T", 'VERSION::"1"'], [("ELSEWHERE", ["STAGE::gamma"])]),   # nothing for the file schema to look at
+    "ov_builtin_bad": _ov_doc(["STAGE::beta", "OWNER::x"], meta=("TYPE::T",)),                   # fails the builtin dict rules only
+}
+
+
+def install_overlay(sb, key):
+    """write the overlay's files into the sandbox' search directory; returns the paths to remove afterwards."""
+    out = []
+    for fname, text in PROJECT_OVERLAYS[key]["files"].items():
+        f = sb.cwd / "specs" / "schemas" / fname
+        if f.exists():
+            raise RuntimeError(f"overlay {key}: {f} exists already")
+        f.write_text(text, encoding="utf-8")
+        out.append(f)
+    return out
+
 
 def preload():
     """Import the implementation in the coordinating process so that forked pool workers inherit it."""
@@ -120,7 +169,7 @@ def content_text(c):
         return None
     if isinstance(c, dict):
         return c["text"]
-    return CONTENTS[c]
+    return CONTENTS[c] if c in CONTENTS else OVERLAY_CONTENTS[c]
 
 
 # ---------------------------------------------------------------------------------------------
@@ -284,6 +333,56 @@ def cli_cases(level):
                 out.append({"tool": "cli_validate", "content": c, "schema": s, "fix": fix, "stdin": level == 2 and (len(out) % 3 == 0)})
             if level == 2 or s in (None, "META"):
                 out.append({"tool": "cli_write", "content": c, "schema": s})
+    return out
+
+
+V_OUTPUT_FLAGS = ("diff_only", "compact", "grammar_hint", "debug_grammar")     # shape what is reported, never what is validated
+W_OUTPUT_FLAGS = ("corrections_only", "grammar_hint", "debug_grammar")
+
+
+def _vcase(content, schema, profile=None, on=(), **kw):
+    return {"tool": "validate", "content": content, "schema": schema, "profile": profile,
+            **{f: (f in on) for f in ("fix",) + V_OUTPUT_FLAGS}, **V_EXTRA, **kw}
+
+
+def _wcase(content, schema, lenient=False, on=(), **kw):
+    return {"tool": "write", "content": content, "schema": schema, "lenient": lenient, **{f: (f in on) for f in W_OUTPUT_FLAGS}, **W_EXTRA,
+            "home": "home", **kw}
+
+
+def _flag_family(content, schema, **kw):
+    """one (content, schema): octave_validate plain / every single flag / all flags / STRICT / LENIENT, octave_write strict and
+    lenient — each with companion calls (same content and schema, one reporting flag toggled, and the other tool)."""
+    out = [_vcase(content, schema, None, (), companions=True, **kw)]
+    out += [_vcase(content, schema, None, (f,), companions=True, **kw) for f in ("fix",) + V_OUTPUT_FLAGS]
+    out.append(_vcase(content, schema, "STANDARD", ("fix",) + V_OUTPUT_FLAGS, companions=True, **kw))
+    out += [_vcase(content, schema, "STRICT", (), companions=True, **kw), _vcase(content, schema, "STRICT", ("compact", "diff_only"), companions=True, **kw),
+            _vcase(content, schema, "LENIENT", (), companions=True, **kw)]
+    out += [_wcase(content, schema, False, (), companions=True, **kw), _wcase(content, schema, False, W_OUTPUT_FLAGS, companions=True, **kw),
+            _wcase(content, schema, True, (), companions=True, **kw)]
+    return out
+
+
+def overlay_cases():
+    """fixed family (every tier): every project overlay x every document designed for it x the flag family."""
+    out = []
+    for key, ov in PROJECT_OVERLAYS.items():
+        for c in OVERLAY_CONTENTS:
+            out += _flag_family(c, ov["schema"], project=key)
+    # the same documents without the overlay: only the package's own schema of that name applies
+    for c in ("ov_ok", "ov_bad_enum", "ov_builtin_bad"):
+        out += [_vcase(c, "META", None, (), companions=True), _wcase(c, "META", False, (), companions=True)]
+    return out
+
+
+def sweep_cases():
+    """fixed family (every tier): the flag family on (document, findable schema) pairs of the ordinary sandbox, one per verdict kind."""
+    pairs = [("meta_ok", "META"), ("meta_bad_enum", "META"), ("meta_extra_field", "META"), ("fields_ok", "GEN_FIELDS"), ("fields_bad_enum", "GEN_FIELDS"),
+             ("fields_enum_case", "GEN_FIELDS"), ("fields_unknown", "GEN_WARN"), ("multi_ok", "GEN_ALIAS"), ("multi_bad", "GEN_ALIAS"),
+             ("multi_ok", "SKILL"), ("multi_bad", "TEST_HOLOGRAPHIC"), ("multi_bad", "DEBATE_TRANSCRIPT"), ("multi_ok", "GEN_EMPTY"), ("meta_ok", "NOPE")]
+    out = []
+    for c, sname in pairs:
+        out += _flag_family(c, sname)
     return out
 
 
@@ -951,6 +1050,78 @@ def oracle(case, outcome, r, sb, args, probe=None):
     # (8) stability: canonical text returned as VALIDATED is VALIDATED again under the same schema
     if vs == "VALIDATED" and r.get("status") == "success":
         fails += _stability(case, r, sb, args)
+    # (9) one (content, schema) has one verdict: calls that differ only in what they REPORT, and the other tool, cannot say VALIDATED
+    #     here and INVALID there (asked for by the case: "companions")
+    if case.get("companions") and tool in ("validate", "write"):
+        fails += _companions(case, r, sb, args)
+    return fails
+
+
+def _blocking_codes(r):
+    ve = r.get("validation_errors")
+    return [str(e.get("code")) for e in ve if isinstance(e, dict) and not str(e.get("code", "")).startswith("W")] if isinstance(ve, list) else []
+
+
+def _companions(case, r, sb, args):
+    """Re-issue the call with ONE reporting flag toggled (octave_validate: diff_only, compact, grammar_hint, debug_grammar, and fix —
+    the status is decided on the document as given, before any repair; octave_write: corrections_only, grammar_hint,
+    debug_grammar) and compare validation_status; then ask the other tool about the same content and schema (octave_validate
+    STANDARD vs octave_write lenient=false: both validate the parsed document non-strictly): VALIDATED on one side and INVALID with
+    a blocking (non-warning) error on the other cannot both be right — the VALIDATED one overstates."""
+    tool, vs = case["tool"], r.get("validation_status")
+    fails = []
+    if tool == "validate":
+        if case.get("input", "content") != "content":
+            return []
+        flags = ("fix",) + V_OUTPUT_FLAGS
+    else:
+        if case.get("mode", "content") != "content" or case.get("policy", "error") != "error" or case.get("base_hash"):
+            return []
+        flags = W_OUTPUT_FLAGS
+    for f in flags:
+        a2 = dict(args)
+        if a2.get(f):
+            a2.pop(f)
+        else:
+            a2[f] = True
+        if tool == "write":
+            a2["target_path"] = str(sb.fresh_target())
+        out2, r2 = _call(tool, a2)
+        vs2 = r2.get("validation_status") if out2 == "ok" and isinstance(r2, dict) else f"<{out2}: {r2}>"
+        if out2 == "ok" and isinstance(r2, dict) and "success" not in (r.get("status"), r2.get("status")) and vs2 in STATUSES:
+            continue      # error envelopes hard-code UNVALIDATED (and say nothing about the schema verdict)
+        if out2 == "ok" and isinstance(r2, dict) and r.get("status") != r2.get("status") and "UNVALIDATED" in (vs, vs2):
+            continue      # one of the two calls failed for a reason of its own (e.g. the target cannot be written, the dry run can)
+        if vs2 != vs:
+            over = "VALIDATED" in (vs, vs2) and "INVALID" in (vs, vs2)
+            which = (f"{f}={bool(args.get(f))}" if vs == "VALIDATED" else f"{f}={not bool(args.get(f))}")
+            inv = r2 if vs2 == "INVALID" else r
+            fails.append(("overstated" if over else "flag-dependent",
+                          f"octave_{tool}: validation_status={vs} with {f}={bool(args.get(f))} but {vs2} with {f}={not bool(args.get(f))} (same content, schema "
+                          f"{case.get('schema')!r}, profile and other flags)" + (f": the call with {which} says VALIDATED although the named schema reports "
+                          f"{json.dumps((inv.get('validation_errors') or [])[:2], ensure_ascii=False, default=str)[:240]} (count {inv.get('validation_error_count')})" if over else "")))
+    # the other tool
+    name = case.get("schema")
+    text = args.get("content")
+    if not isinstance(name, str) or not isinstance(text, str) or name.startswith("frozen@") or name == "latest":
+        return fails
+    if tool == "validate" and (case.get("profile") or "STANDARD").upper() == "STANDARD":
+        out2, r2 = _call("write", {"target_path": str(sb.fresh_target()), "content": text, "schema": name, "corrections_only": True})
+        other = "octave_write(lenient=false)"
+    elif tool == "write" and not case.get("lenient"):
+        out2, r2 = _call("validate", {"content": text, "schema": name})
+        other = "octave_validate(profile STANDARD)"
+    else:
+        return fails
+    if out2 == "ok" and isinstance(r2, dict):
+        vs2 = r2.get("validation_status")
+        # octave_validate says INVALID for blocking errors only (warnings never block there); octave_write lists every entry
+        if vs == "VALIDATED" and vs2 == "INVALID" and (tool == "write" or _blocking_codes(r2)):
+            fails.append(("overstated", f"octave_{tool}: VALIDATED, but {other} on the same content and schema {name!r} reports blocking errors "
+                          f"{json.dumps(r2.get('validation_errors')[:2], ensure_ascii=False, default=str)[:240]}"))
+        if vs == "INVALID" and vs2 == "VALIDATED" and (tool == "validate" or _blocking_codes(r)):
+            fails.append(("overstated", f"{other} says VALIDATED for the same content and schema {name!r}, although octave_{tool} reports blocking errors "
+                          f"{json.dumps((r.get('validation_errors') or [])[:2], ensure_ascii=False, default=str)[:240]} (count {r.get('validation_error_count')})"))
     return fails
 
 
@@ -1102,6 +1273,23 @@ def cli_oracle(case, r):
 def run_case(case):
     sb = SB.worker_sandbox()
     sb.enter(case.get("home", "home"))
+    installed = install_overlay(sb, case["project"]) if case.get("project") else []
+    try:
+        res = _run_case(case, sb)
+    finally:
+        for f in installed:
+            try:
+                f.unlink()
+            except OSError:
+                pass
+    if case.get("project"):
+        res["tags"].append(f"project:{case['project']}")
+    if case.get("companions"):
+        res["tags"].append("companions")
+    return res
+
+
+def _run_case(case, sb):
     tool = case["tool"]
     tags = [f"tool:{tool}"]
     if tool in ("cli_validate", "cli_write"):
